@@ -148,6 +148,49 @@ def num_expr(v):
     raise OutsideSubset("not a scalar: %r" % (v,))
 
 
+def is_str_sym(v):
+    return isinstance(v, Sym) and z3.is_string(v.e)
+
+
+def str_expr(v):
+    if isinstance(v, Sym):
+        return v.e
+    if isinstance(v, str):
+        return z3.StringVal(v)
+    raise OutsideSubset("not a string: %r" % (v,))
+
+
+def str_format(fmt, args):
+    """'..%d..%s..' % args with symbolic strings among the arguments (only %s and %d
+    conversions of concrete ints / strings)."""
+    import re as _re
+    parts, pos, k = [], 0, 0
+    for m in _re.finditer(r"%(%|[sdr])", fmt):
+        if m.start() > pos:
+            parts.append(z3.StringVal(fmt[pos:m.start()]))
+        pos = m.end()
+        if m.group(1) == "%":
+            parts.append(z3.StringVal("%"))
+            continue
+        arg = args[k]
+        k += 1
+        if is_str_sym(arg):
+            if m.group(1) != "s":
+                raise OutsideSubset("symbolic string formatted with %%%s" % m.group(1))
+            parts.append(arg.e)
+        elif isinstance(arg, Sym):
+            raise OutsideSubset("symbolic number in string formatting")
+        else:
+            parts.append(z3.StringVal(("%" + m.group(1)) % (arg,)))
+    if "%" in _re.sub(r"%(%|[sdr])", "", fmt):
+        raise OutsideSubset("format %r" % fmt)
+    if pos < len(fmt):
+        parts.append(z3.StringVal(fmt[pos:]))
+    if k != len(args):
+        raise IRaise(TypeError("not all arguments converted during string formatting"))
+    return Sym(z3.Concat(*parts) if len(parts) > 1 else parts[0])
+
+
 def bool_expr(v):
     if isinstance(v, Sym):
         if v.is_bool:
@@ -1147,6 +1190,11 @@ class Interp(object):
         modname = ("." * s.level) + (s.module or "")
         mod = importlib.import_module(modname, pkg)
         for al in s.names:
+            if not hasattr(mod, al.name):
+                # 'from . import submodule'
+                frame.vars[al.asname or al.name] = importlib.import_module(
+                    ("." * s.level) + ((s.module + ".") if s.module else "") + al.name, pkg)
+                continue
             frame.vars[al.asname or al.name] = getattr(mod, al.name)
 
     def s_Global(self, s, frame):
@@ -1252,6 +1300,17 @@ class Interp(object):
         # only context managers without effect on the modelled state
         for item in s.items:
             src = ast.unparse(item.context_expr)
+            hook = getattr(self, "with_hook", None)
+            if hook is not None and hook(src):
+                # harness-modelled context manager (e.g. a ghost file): value bound, body run, exit called
+                cm = self.eval(item.context_expr, frame)
+                if item.optional_vars is not None:
+                    self.assign(item.optional_vars, cm, frame)
+                self.exec_block(s.body, frame)
+                ex = self.getattr(cm, "__exit__", None) if isinstance(cm, SObj) else None
+                if ex is not None:
+                    self.call(ex, [None, None, None])
+                return
             if not (src.startswith("np.errstate") or src.startswith("numpy.errstate")
                     or "lock" in src.lower() or src.startswith("push_seed")
                     or src.startswith("warnings.")):
@@ -1403,7 +1462,7 @@ class Interp(object):
                     mv[k] = self._merge_value(c, a, b, base)
                 except MergeFail:
                     pre = f0.get(id(f), {}).get(k, _UNDEF)
-                    if a is not pre and b is not pre:
+                    if (a is not pre and b is not pre) or not getattr(self, "poison_one_arm", True):
                         raise          # assigned differently in both arms: fork
                     mv[k] = _Poison(None)
             merged_frames.append((f, mv))
@@ -1427,6 +1486,10 @@ class Interp(object):
             return _Poison(a if b is _UNDEF else b)
         if isinstance(a, _Poison) or isinstance(b, _Poison):
             return a if isinstance(a, _Poison) else b
+        if (isinstance(a, str) or is_str_sym(a)) and (isinstance(b, str) or is_str_sym(b)):
+            if isinstance(a, str) and isinstance(b, str) and a == b:
+                return a
+            return Sym(z3.If(c, str_expr(a), str_expr(b)))
         if is_scalar(a) and is_scalar(b):
             if not is_sym(a) and not is_sym(b):
                 try:
@@ -1807,6 +1870,14 @@ class Interp(object):
 
     def binop(self, op, a, b, inplace=False):
         sym = self.OPS.get(op)
+        if is_str_sym(a) or is_str_sym(b):
+            if sym == "+" and (is_str_sym(a) or isinstance(a, str)) and (is_str_sym(b) or isinstance(b, str)):
+                return Sym(z3.Concat(str_expr(a), str_expr(b)))
+            if sym == "%" and isinstance(a, str):
+                return str_format(a, b if isinstance(b, tuple) else (b,))
+            raise OutsideSubset("operator %s on symbolic strings" % sym)
+        if sym == "%" and isinstance(a, str) and isinstance(b, tuple) and any(is_str_sym(x) for x in b):
+            return str_format(a, b)
         if isinstance(a, SArr) or isinstance(b, SArr):
             from . import pymodels
             if op in (ast.BitAnd, ast.BitOr):
@@ -1896,6 +1967,13 @@ class Interp(object):
         if isinstance(a, SArr) or isinstance(b, SArr):
             from . import pymodels
             return pymodels.array_compare(self, sym, a, b)
+        if is_str_sym(a) or is_str_sym(b):
+            if sym not in ("==", "!="):
+                raise OutsideSubset("ordering of symbolic strings")
+            if (isinstance(a, str) or is_str_sym(a)) and (isinstance(b, str) or is_str_sym(b)):
+                eq = str_expr(a) == str_expr(b)
+                return Sym(eq if sym == "==" else z3.Not(eq))
+            return sym == "!="          # a string never equals a non-string
         if is_sym(a) or is_sym(b):
             return compare(sym, a, b)
         if isinstance(a, SList) and isinstance(b, SList) and sym in ("==", "!="):
@@ -1928,6 +2006,11 @@ class Interp(object):
         if isinstance(container, SList):
             container = container.items
         if isinstance(container, (list, tuple, set, frozenset, str, dict, range)) or hasattr(container, "__contains__"):
+            if is_str_sym(x):
+                if isinstance(container, (list, tuple)):
+                    ors = [x.e == str_expr(y) for y in container if isinstance(y, str) or is_str_sym(y)]
+                    return Sym(z3.Or(*ors)) if ors else False
+                raise OutsideSubset("symbolic string membership")
             if is_sym(x):
                 if isinstance(container, (list, tuple)):
                     ors = [bool_expr(compare("==", x, y)) for y in container if is_scalar(y)]
